@@ -499,6 +499,7 @@ def check_channel_signature(run, model, env, rng, idx, kind='claim'):
     first_in = Input.spend(funding_output(rng, COIN, rng.randbytes(20), rng.choice([0, 1, 5, 300])))
     extra_ins = [Input.spend(funding_output(rng, COIN, rng.randbytes(20), 0)) for _ in range(rng.randrange(0, 3))]
     big = {0: 65450, 3: 70000, 4: 65536 - 86}.get(idx)   # payloads around and beyond the 2-byte push length (OP_PUSHDATA4)
+    exact_total = {8: 2 * 65536, 12: 3 * 65536}.get(idx)   # signed byte string (36 + 20 + message) of exactly k * 64 KiB
     if kind == 'support':
         sup = Support()
         sup.emoji = rng.choice(['👍', 'x', ''])
@@ -512,6 +513,16 @@ def check_channel_signature(run, model, env, rng, idx, kind='claim'):
             claim = Claim()
             claim.stream.description = 'd' * big
             run.count('payload>64KiB' if len(claim.to_bytes()) + 84 > 65535 else 'payload~64KiB')
+        if exact_total and kind != 'support':
+            claim = Claim()
+            claim.stream.description = 'd' * (exact_total - 200)
+            for _ in range(6):   # converge on a message of exactly exact_total - 56 bytes (varint length prefixes move)
+                diff = (exact_total - 56) - len(claim.to_message_bytes())
+                if diff == 0:
+                    break
+                claim.stream.description = 'd' * (len(claim.stream.description) + diff)
+            if len(claim.to_message_bytes()) == exact_total - 56:
+                run.count('signed-bytes=k*64KiB')
         if idx % 3 == 1:
             newer = with_unknown_fields(rng, claim)
             if newer is not None:
@@ -973,6 +984,84 @@ def check_wallet_history(run, loop, rng, variant):
         run.violation(case, '; '.join(problems[:3]), signature={'kind': 'wallet-history', 'variant': variant})
 
 
+def verify_p2pkh_inputs(raw, spent_scripts):
+    """independent check of every input of a raw transaction spending the given (pay-to-pubkey-hash tailed) scripts"""
+    ptx = parse_legacy_tx(raw)
+    if len(ptx['ins']) != len(spent_scripts):
+        return 'input count differs'
+    for i, x in enumerate(ptx['ins']):
+        try:
+            sig, o = read_push(x['script'], 0)
+            pub, o = read_push(x['script'], o)
+        except Exception as e:  # noqa
+            return f'input {i}: scriptSig is not <sig> <pubkey>: {e!r}'
+        spent = spent_scripts[i]
+        if hash160(pub) != spent[-22:-2]:
+            return f"input {i}: public key does not hash to the spent output's pubkey hash"
+        if not sig or sig[-1] != 1:
+            return f'input {i}: hash type byte is not SIGHASH_ALL'
+        if not ecdsa_verify_der(pub, dsha(sighash_all_preimage(ptx, i, spent)), sig[:-1]):
+            return f'input {i}: signature does not verify under the SIGHASH_ALL digest (independent ecdsa)'
+    return None
+
+
+def check_funded_builds(run, loop, rng):
+    """transactions whose INPUTS the wallet chooses itself (Transaction.create / pay / claim_create / support through a ledger and
+    database holding several outputs), built and signed in one go; amounts need 1, 2, 3 and more funding outputs"""
+    d = tempfile.mkdtemp(prefix='c04f_')
+    ledger = Ledger({'db': Database(os.path.join(d, 'blockchain.db')), 'headers': Headers(':memory:')})
+    loop.run_until_complete(ledger.db.open())
+
+    async def scenario():
+        wallet = Wallet()
+        account = Account.from_dict(ledger, wallet, {
+            'seed': 'carbon smart garage balance margin twelve chest sword toast envelope bottom stomach absent'})
+        addresses = await account.ensure_address_gap()
+        receiving = await account.receiving.get_addresses()
+        feeder = Transaction().add_outputs([Output.pay_pubkey_hash(100 * COIN, b'\1' * 20)])
+        fund = Transaction().add_inputs([Input.spend(feeder.outputs[0])]).add_outputs(
+            [Output.pay_pubkey_hash(2 * COIN, ledger.address_to_hash160(receiving[j % 6])) for j in range(14)])
+        fund = Transaction(fund.raw, height=1, is_verified=True)
+        for a in addresses:
+            await ledger.db.save_transaction_io(fund, a, ledger.address_to_hash160(a), '')
+        for k, amount in enumerate([COIN, 3 * COIN, 5 * COIN, 7 * COIN + 12345]):
+            for strategy in ('standard', 'sqlite'):
+                ledger.coin_selection_strategy = strategy
+                case = {'kind': 'funded-build', 'amount': amount, 'strategy': strategy, 'shape': k % 3}
+                run.case(case, nontrivial=True, sample=False)
+                run.count('funded-build')
+                try:
+                    if k % 3 == 0:
+                        tx = await Transaction.pay(amount, receiving[7], [account], account)
+                    elif k % 3 == 1:
+                        claim = Claim()
+                        claim.stream.title = 'funded %d' % k
+                        tx = await Transaction.claim_create('funded', claim, amount, receiving[8], [account], account)
+                        await tx.sign([account])
+                    else:
+                        tx = await Transaction.support('name', 'ab' * 20, amount, receiving[9], [account], account)
+                        await tx.sign([account])     # like claim_create, support builds unsigned; the daemon signs next
+                    spent = [txi.txo_ref.txo.script.source for txi in tx.inputs]
+                    bad = verify_p2pkh_inputs(tx.raw, spent)
+                    if not bad and len(tx.inputs) * 2 * COIN < amount:
+                        bad = 'inputs do not cover the amount (harness)'
+                    run.count('funded-build:inputs=%d' % min(len(tx.inputs), 5))
+                except Exception as e:  # noqa
+                    bad = f'build failed: {type(e).__name__}: {e}'
+                    tx = None
+                if tx is not None:
+                    await ledger.release_tx(tx)
+                if bad:
+                    run.violation(case, f'wallet-funded {["payment", "claim", "support"][k % 3]} of {amount} dewies '
+                                        f'({strategy}): {bad}', signature={'kind': 'funded-build', 'amount': amount,
+                                                                            'strategy': strategy})
+    try:
+        loop.run_until_complete(scenario())
+    finally:
+        loop.run_until_complete(ledger.db.close())
+        shutil.rmtree(d, ignore_errors=True)
+
+
 def check_legacy(run, model, env, rng):
     for entry in json.load(open(CORPUS)):
         stream = Transaction(bytes.fromhex(entry['txs']['stream_tx'])).outputs[0]
@@ -1166,6 +1255,7 @@ def main(run):
         check_resolve(run, env, rng)
         for variant in ('update-then-rotate', 'rotate-at-once'):
             check_wallet_history(run, loop, rng, variant)
+        check_funded_builds(run, loop, rng)
         # compact-size boundaries inside the signed preimage: counts and script lengths of exactly 252..254, 65535
         for L in (252, 253, 254):
             check_input_signatures(run, model, env, rng, 100000 + L, boundary='output-script', boundary_len=L)
